@@ -848,7 +848,7 @@ def storage_configs(ctx: core.Ctx) -> list:
 def community_configs(ctx: core.Ctx) -> list:
     if ctx.thorough:
         return [(CommunityModel("full", ctx.seed), 4), (CommunityModel("lifetimes", ctx.seed), 5),
-                (CommunityModel("expiry", ctx.seed), 8)]
+                (CommunityModel("expiry", ctx.seed), 7)]    # depth 8 would reach S's rate limiter (10 queries / 5 s)
     return [(CommunityModel("full", ctx.seed), 3), (CommunityModel("lifetimes", ctx.seed), 4),
             (CommunityModel("expiry", ctx.seed), 5)]
 
